@@ -53,13 +53,13 @@ Lemma header_same bs r code len_ hl :
   decode_item_header None bs = Ok (r, code, len_, hl) -> item_decode_header bs = Ok (r, code, len_).
 Proof.
   unfold decode_item_header, item_decode_header. destruct bs as [|fb t]; [discriminate|]. cbv zeta.
-  destruct (length t <? N.to_nat (N.land fb 3))%nat; [discriminate|]. intro H. injection H as <- <- <- _. reflexivity.
+  destruct (shorter t (N.to_nat (N.land fb 3))); [discriminate|]. intro H. injection H as <- <- <- _. reflexivity.
 Qed.
 Lemma header_some_none fc bs x : decode_item_header (Some fc) bs = Ok x ->
   decode_item_header None bs = Ok x /\ (let '(_, code, _, _) := x in code = fc).
 Proof.
   unfold decode_item_header. destruct bs as [|fb t]; [discriminate|]. cbv zeta.
-  destruct (length t <? N.to_nat (N.land fb 3))%nat; [discriminate|].
+  destruct (shorter t (N.to_nat (N.land fb 3))); [discriminate|].
   destruct (fc =? N.shiftr (N.land fb 252) 2) eqn:E; [|discriminate]. apply N.eqb_eq in E.
   intro H. injection H as <-. split; [reflexivity|symmetry; exact E].
 Qed.
